@@ -89,4 +89,5 @@ def main() -> None:
             net.fail(cls, "bytes were written without error but decode to different statements" + (" (every statement fits its tables once repeats are elided)" if not over else ""), inp, got, want)
     net.finish("bounded", "1..3 statements with shared subjects/predicates, prefix tables 1..3 / datatype tables 1..3 / name table 8 with quoted triples, frame sizes {1,2,250}, TRIPLES and QUADS",
                "each case = (preset, frame size, statement list); failures are classed `overflow` (known finding D7: more distinct entries than slots in one statement) or `fits`")
-main()
+if __name__ == "__main__":
+    main()
